@@ -19,6 +19,7 @@ pub mod c08;
 pub mod c09;
 pub mod c09net;
 pub mod c10;
+pub mod c10real;
 pub mod tunnelreq;
 pub mod c11;
 pub mod c12;
